@@ -9,15 +9,16 @@
 // after EVERY operation the stated relation of EVERY earlier operation is evaluated again on the objects it
 // returned.
 //
-//   D  the relation of operation j fails after operation k >= j   (k > j: tag history-changed)
-//   M  the types held by the results at the END of the history, decoded through the hook, against
-//      `run` of coq/Model/InferHist.v (cache model; pure by C04_history_pure)
+//	D  the relation of operation j fails after operation k >= j   (k > j: tag history-changed)
+//	M  the types held by the results at the END of the history, decoded through the hook, against
+//	   `run` of coq/Model/InferHist.v (cache model; pure by C04_history_pure)
 package main
 
 import (
 	"encoding/json"
 	"fmt"
 	"strings"
+	"time"
 
 	"github.com/lyraproj/pcore/px"
 	"github.com/lyraproj/pcore/types"
@@ -61,11 +62,11 @@ type hb struct{ h *history }
 
 func newHB(family string) *hb { return &hb{&history{Kind: "history", Family: family}} }
 
-func (b *hb) node(n hNode) int { b.h.Nodes = append(b.h.Nodes, n); return len(b.h.Nodes) - 1 }
+func (b *hb) node(n hNode) int      { b.h.Nodes = append(b.h.Nodes, n); return len(b.h.Nodes) - 1 }
 func (b *hb) leaf(v *lat.VSpec) int { return b.node(hNode{K: "leaf", V: v}) }
-func (b *hb) arr(cs ...int) int    { return b.node(hNode{K: "arr", C: append([]int{}, cs...)}) }
-func (b *hb) hash(kvs ...int) int  { return b.node(hNode{K: "hash", C: append([]int{}, kvs...)}) }
-func (b *hb) sens(c int) int       { return b.node(hNode{K: "sens", C: []int{c}}) }
+func (b *hb) arr(cs ...int) int     { return b.node(hNode{K: "arr", C: append([]int{}, cs...)}) }
+func (b *hb) hash(kvs ...int) int   { return b.node(hNode{K: "hash", C: append([]int{}, kvs...)}) }
+func (b *hb) sens(c int) int        { return b.node(hNode{K: "sens", C: []int{c}}) }
 
 // val turns a recipe into objects: every collection becomes an object of its own
 func (b *hb) val(v *lat.VSpec) int {
@@ -85,9 +86,9 @@ func (b *hb) val(v *lat.VSpec) int {
 	return b.leaf(v)
 }
 
-func (b *hb) op(o hOp) int { b.h.Ops = append(b.h.Ops, o); return len(b.h.Ops) - 1 }
-func (b *hb) ptype(n int) int    { return b.op(hOp{Op: "ptype", N: n}) }
-func (b *hb) detailed(n int) int { return b.op(hOp{Op: "detailed", N: n}) }
+func (b *hb) op(o hOp) int        { b.h.Ops = append(b.h.Ops, o); return len(b.h.Ops) - 1 }
+func (b *hb) ptype(n int) int     { return b.op(hOp{Op: "ptype", N: n}) }
+func (b *hb) detailed(n int) int  { return b.op(hOp{Op: "detailed", N: n}) }
 func (b *hb) lit(t *lat.Spec) int { return b.op(hOp{Op: "type", T: t}) }
 func (b *hb) common(a, c int) int {
 	return b.op(hOp{Op: "common", A: &hRef{a}, B: &hRef{c}})
@@ -441,8 +442,56 @@ func siblings() []*lat.VSpec {
 	}
 }
 
-// twoParents: one shared value, two parents that combine it with different siblings, the inferences in several orders
-func twoParents() []*history {
+// parentsHistory: x shared by two parents that combine it with s1 / s2, in one of six shapes; the inferences in one
+// of four orders
+func parentsHistory(family string, in, s1, s2 *lat.VSpec, shape, order int) *history {
+	b := newHB(family)
+	x := b.val(in)
+	a1, a2 := b.val(s1), b.val(s2)
+	var p1, p2 int
+	switch shape {
+	case 0:
+		p1, p2 = b.arr(x, a1), b.arr(x, a2)
+	case 1:
+		p1, p2 = b.arr(a1, x), b.arr(a2, x)
+	case 2:
+		k1, k2 := b.leaf(lat.VS("p")), b.leaf(lat.VS("q"))
+		p1, p2 = b.hash(k1, x, k2, a1), b.hash(k1, x, k2, a2)
+	case 3:
+		k1, k2 := b.leaf(lat.VS("p")), b.leaf(lat.VI(2))
+		p1, p2 = b.hash(k2, a1, k1, x), b.hash(k1, a2, k2, x)
+	case 4:
+		w := b.arr(x)
+		p1, p2 = b.arr(w, b.arr(a1)), b.arr(w, b.arr(a2))
+	default:
+		p1, p2 = b.sens(b.arr(x, a1)), b.arr(x, a2, x)
+	}
+	switch order {
+	case 0:
+		b.ptype(p1)
+		b.ptype(p2)
+	case 1:
+		b.ptype(x)
+		b.ptype(p1)
+		b.detailed(p1)
+		b.ptype(p2)
+	case 2:
+		b.detailed(p1)
+		b.ptype(p2)
+		b.ptype(p1)
+		b.detailed(p2)
+	default:
+		r1 := b.ptype(p1)
+		r2 := b.ptype(p2)
+		c := b.common(r1, r2)
+		b.generalize(c)
+		b.ptype(x)
+	}
+	return b.h
+}
+
+// twoParentsHetero: the heterogeneous pools, every fourth combination
+func twoParentsHetero() []*history {
 	var out []*history
 	inn, sib := sharedInner(), siblings()
 	n := 0
@@ -453,52 +502,148 @@ func twoParents() []*history {
 					continue
 				}
 				n++
-				// two of the six shapes and two of the four orders per combination, in rotation
+				if n%4 != 0 {
+					continue
+				}
 				for d := 0; d < 2; d++ {
-					shape, order := (n+3*d)%6, (n/6+d)%4
-					b := newHB("two-parents")
-					x := b.val(in)
-					a1, a2 := b.val(s1), b.val(s2)
-					var p1, p2 int
-					switch shape {
-					case 0:
-						p1, p2 = b.arr(x, a1), b.arr(x, a2)
-					case 1:
-						p1, p2 = b.arr(a1, x), b.arr(a2, x)
-					case 2:
-						k1, k2 := b.leaf(lat.VS("p")), b.leaf(lat.VS("q"))
-						p1, p2 = b.hash(k1, x, k2, a1), b.hash(k1, x, k2, a2)
-					case 3:
-						k1, k2 := b.leaf(lat.VS("p")), b.leaf(lat.VI(2))
-						p1, p2 = b.hash(k2, a1, k1, x), b.hash(k1, a2, k2, x)
-					case 4:
-						w := b.arr(x)
-						p1, p2 = b.arr(w, b.arr(a1)), b.arr(w, b.arr(a2))
-					default:
-						p1, p2 = b.sens(b.arr(x, a1)), b.arr(x, a2, x)
+					out = append(out, parentsHistory("two-parents-mixed", in, s1, s2, (n/4+3*d)%6, (n/24+d)%4))
+				}
+			}
+		}
+	}
+	return out
+}
+
+// elemKinds: families of pairwise unrelated elements of one member-wise mergeable kind; elem(i) for i < 20
+func elemKinds() []func(i int) *lat.VSpec {
+	T := lat.VT
+	return []func(i int) *lat.VSpec{
+		func(i int) *lat.VSpec { return lat.VS(alphabet[i]) },
+		func(i int) *lat.VSpec { return T(lat.Enum(false, alphabet[i])) },
+		func(i int) *lat.VSpec { return T(lat.Enum(i%3 == 0, alphabet[i], alphabet[i]+"x")) },
+		func(i int) *lat.VSpec { return T(lat.StrVal(alphabet[i])) },
+		func(i int) *lat.VSpec { return T(lat.Pat(alphabet[i])) },
+		func(i int) *lat.VSpec { return T(lat.Pat(alphabet[i], alphabet[i]+"+")) },
+		func(i int) *lat.VSpec {
+			return T(lat.Var(lat.Int(int64(2*i), int64(2*i)), lat.Flt(float64(100+i), float64(100+i))))
+		},
+		func(i int) *lat.VSpec {
+			return T(lat.Var(lat.StrVal(alphabet[i]), lat.Int(int64(2*i), int64(2*i)), lat.Rx(alphabet[i])))
+		},
+		func(i int) *lat.VSpec { return T(lat.Tup(lat.StrVal(alphabet[i]))) },
+		func(i int) *lat.VSpec { return T(lat.Arr(lat.StrVal(alphabet[i]), 1, 1)) },
+		func(i int) *lat.VSpec { return T(lat.W("NotUndef", lat.Enum(false, alphabet[i]))) },
+		func(i int) *lat.VSpec { return lat.VI(int64(3 * i)) },
+	}
+}
+
+// twoParents: per kind, a shared array of k elements (k around the points where a Go slice grows; with and without
+// duplicates), two parents that add one or two further elements of the kind, at three nesting depths
+func twoParents() []*history {
+	var out []*history
+	n := 0
+	for _, elem := range elemKinds() {
+		var inners []*lat.VSpec
+		var sizes []int
+		for _, k := range []int{1, 2, 3, 4, 5, 6, 7, 8, 9, 12, 16, 17} {
+			es := make([]*lat.VSpec, k)
+			for i := range es {
+				es[i] = elem(i)
+			}
+			inners, sizes = append(inners, lat.VA(es...)), append(sizes, k)
+		}
+		inners, sizes = append(inners, lat.VA(elem(0), elem(1), elem(0)), lat.VA(elem(0), elem(1), elem(2), elem(0), elem(1)),
+			lat.VA(elem(0), elem(1), elem(2), elem(3), elem(1), elem(4))), append(sizes, 2, 3, 5)
+		for ii, in := range inners {
+			k := sizes[ii]
+			sibs := []*lat.VSpec{lat.VA(elem(k)), lat.VA(elem(k + 1)), lat.VA(elem(0)), lat.VA(elem(k), elem(k+1)), lat.VA(elem(k+2), elem(k)), lat.VA()}
+			for i1, s1 := range sibs {
+				for i2, s2 := range sibs {
+					if i1 == i2 {
+						continue
 					}
-					switch order {
-					case 0:
-						b.ptype(p1)
-						b.ptype(p2)
-					case 1:
-						b.ptype(x)
-						b.ptype(p1)
-						b.detailed(p1)
-						b.ptype(p2)
-					case 2:
-						b.detailed(p1)
-						b.ptype(p2)
-						b.ptype(p1)
-						b.detailed(p2)
-					default:
-						r1 := b.ptype(p1)
-						r2 := b.ptype(p2)
-						c := b.common(r1, r2)
-						b.generalize(c)
-						b.ptype(x)
+					for nest := 0; nest < 3; nest++ {
+						n++
+						x, y1, y2 := in, s1, s2
+						switch nest {
+						case 1:
+							x, y1, y2 = lat.VA(in), lat.VA(s1), lat.VA(s2)
+						case 2:
+							x, y1, y2 = lat.VA(lat.VA(in), lat.VA()), lat.VA(lat.VA(s1)), lat.VA(lat.VA(), lat.VA(s2))
+						}
+						out = append(out, parentsHistory("two-parents", x, y1, y2, n%6, (n/6)%4), parentsHistory("two-parents", x, y1, y2, (n+3)%6, (n/6+1)%4))
 					}
-					out = append(out, b.h)
+				}
+			}
+		}
+	}
+	return out
+}
+
+// typeKinds: the same kinds as literal types for direct CommonType calls; atom(i) for i < 20
+func typeKinds() []func(i int) *lat.Spec {
+	return []func(i int) *lat.Spec{
+		func(i int) *lat.Spec { return lat.StrVal(alphabet[i]) },
+		func(i int) *lat.Spec { return lat.Enum(false, alphabet[i]) },
+		func(i int) *lat.Spec { return lat.Enum(i%3 == 0, alphabet[i], alphabet[i]+"x") },
+		func(i int) *lat.Spec { return lat.Pat(alphabet[i]) },
+		func(i int) *lat.Spec { return lat.Pat(alphabet[i], alphabet[i]+"+") },
+		func(i int) *lat.Spec {
+			return lat.Var(lat.Int(int64(2*i), int64(2*i)), lat.Flt(float64(100+i), float64(100+i)))
+		},
+		func(i int) *lat.Spec {
+			return lat.Var(lat.StrVal(alphabet[i]), lat.Int(int64(2*i), int64(2*i)), lat.Rx(alphabet[i]))
+		},
+		func(i int) *lat.Spec { return lat.Tup(lat.StrVal(alphabet[i])) },
+		func(i int) *lat.Spec { return lat.Int(int64(3*i), int64(3*i)) },
+	}
+}
+
+// mergeTrees: a chain r0 = atom0, r(i+1) = CommonType(r(i), atom(i+1)) up to depth 8, and at one level of the chain
+// two (or three) further merges of the SAME object with different atoms, before or after the chain goes on; every
+// kind, bare and wrapped
+func mergeTrees() []*history {
+	var out []*history
+	for _, atom := range typeKinds() {
+		for w := 0; w < 5; w++ {
+			for depth := 1; depth <= 8; depth++ {
+				for level := 0; level <= depth; level++ {
+					for variant := 0; variant < 3; variant++ {
+						if w > 0 && (depth+level+variant+w)%2 != 0 { // the wrapped forms: half of the combinations
+							continue
+						}
+						b := newHB("merge-tree")
+						lit := func(i int) int { return b.lit(wrapSpec(w, atom(i))) }
+						chain := []int{lit(0)}
+						grow := func(to int) {
+							for len(chain) <= to {
+								i := len(chain)
+								if variant == 2 && i%2 == 0 {
+									chain = append(chain, b.common(lit(i), chain[i-1])) // the receiver on the right
+								} else {
+									chain = append(chain, b.common(chain[i-1], lit(i)))
+								}
+							}
+						}
+						fan := func() {
+							r := chain[level]
+							f1 := b.common(r, lit(depth+1))
+							f2 := b.common(r, lit(depth+2))
+							if variant == 1 {
+								b.common(lit(depth+3), r)
+								b.common(f1, f2)
+							}
+						}
+						if variant == 0 {
+							grow(depth)
+							fan()
+						} else {
+							grow(level)
+							fan()
+							grow(depth)
+						}
+						out = append(out, b.h)
+					}
 				}
 			}
 		}
@@ -781,7 +926,7 @@ func gHistory(s *hState, pats, strs map[string]bool) (term string, ok bool) {
 			return "", false
 		}
 	}
-	index := map[int]int{}        // operation -> index among the modelled operations
+	index := map[int]int{}           // operation -> index among the modelled operations
 	lits := map[int]*types.VerifTy{} // literal types
 	var ops, obs []string
 	ref := func(r *hRef) (string, *types.VerifTy, bool) {
@@ -852,9 +997,12 @@ func runHistories(cfg *lib.Config, res *lib.Result, rng *lib.Rng) {
 	if cfg.Thorough() {
 		nRandom, nCoq = 60000, 4000
 	}
+	t0 := time.Now()
 	var hs []*history
 	hs = append(hs, twoParents()...)
+	hs = append(hs, twoParentsHetero()...)
 	hs = append(hs, commonChains()...)
+	hs = append(hs, mergeTrees()...)
 	for i := 0; i < nRandom; i++ {
 		hs = append(hs, randomHistory(rng))
 	}
@@ -884,7 +1032,17 @@ func runHistories(cfg *lib.Config, res *lib.Result, rng *lib.Rng) {
 		}
 		ran = append(ran, kept{s, h.Family})
 	}
-	res.Extra["histories"] = len(ran)
+	nMut := 600
+	if cfg.Thorough() {
+		nMut = 10000
+	}
+	mhs := mutableHistories(rng, nMut)
+	for _, mh := range mhs {
+		runMutable(mh, res, nil)
+		res.Count("history.mutable-hash")
+	}
+	res.Extra["histories"] = len(ran) + len(mhs)
+	res.Extra["histories_d_s"] = time.Since(t0).Seconds()
 	for k := 0; k < 2 && len(ran) > 0; k++ {
 		s := ran[(k*7919+13)%len(ran)].s
 		var lines []string
@@ -972,4 +1130,132 @@ func replayHistory(in interface{}, res *lib.Result, cfg *lib.Config) {
 	}
 	cf.Prelude = lat.Oracle(pats, strs)
 	res.CorrFiles = append(res.CorrFiles, cf.WriteTo(cfg.Out, "cases_history_replay"))
+}
+
+// ---- mutable hashes: histories with Put ----
+//
+// types.NewMutableHash() is a value whose entries change; its inferred types are cached like those of a Hash.
+// Direct check only (the Rocq model has no mutable value). After every step, for the hash h as it is NOW:
+//   infer / detailed, tag mutable-hash-not-instance   IsInstance(h.PType(), h), IsInstance(DetailedValueType(h), h)
+//   infer / detailed, tag mutable-hash-stale-type     the same with the immutable hash of the same entries in the
+//                                                     place of h (so that a stale cached type shows independently
+//                                                     of the first relation)
+
+type mStep struct {
+	Op string     `json:"op"` // put | ptype | detailed
+	K  *lat.VSpec `json:"key,omitempty"`
+	V  *lat.VSpec `json:"value,omitempty"`
+}
+
+type mHistory struct {
+	Kind  string  `json:"kind"` // "mutable-hash"
+	Steps []mStep `json:"steps"`
+}
+
+func runMutable(h *mHistory, res *lib.Result, trace func(string)) {
+	var m *types.MutableHashValue
+	_, crash := lat.Guarded(func() bool { m = types.NewMutableHash(); return true })
+	if crash != "" || m == nil {
+		return
+	}
+	for k, st := range h.Steps {
+		in := &mHistory{Kind: h.Kind, Steps: h.Steps[:k+1]}
+		_, crash := lat.Guarded(func() bool {
+			switch st.Op {
+			case "put":
+				m.Put(st.K.Build(), st.V.Build())
+			case "ptype":
+				_ = m.PType()
+			case "detailed":
+				_ = px.DetailedValueType(m)
+			}
+			return true
+		})
+		if crash != "" {
+			res.Violate(lib.Violation{Clause: "crash", What: fmt.Sprintf("mutable hash, step %d (%s): %s", k, st.Op, crash), Input: in, Tags: []string{"crash-mutable-hash"}})
+			return
+		}
+		var frozen px.Value
+		_, _ = lat.Guarded(func() bool { frozen = types.WrapHash(m.AppendEntriesTo(nil)); return true })
+		if frozen == nil || dupKeys(frozen) {
+			return
+		}
+		if trace != nil {
+			trace(fmt.Sprintf("step %d %s: h = %s, h.PType() = %s, DetailedValueType(h) = %s", k, st.Op, lat.ValText(frozen), tyText(m.PType()), tyText(px.DetailedValueType(m))))
+		}
+		for _, c := range []struct {
+			clause string
+			ty     func() px.Type
+		}{{"infer", func() px.Type { return m.PType() }}, {"detailed", func() px.Type { return px.DetailedValueType(m) }}} {
+			for _, who := range []struct {
+				tag string
+				v   px.Value
+			}{{"mutable-hash-stale-type", frozen}, {"mutable-hash-not-instance", m}} {
+				res.Evaluations++
+				var t px.Type
+				ok, crash := gBool(func() bool { t = c.ty(); return px.IsInstance(t, who.v) })
+				if ok {
+					continue
+				}
+				what := fmt.Sprintf("the mutable hash %s is not an instance of its %s type %s %s", lat.ValText(frozen), map[string]string{"infer": "inferred", "detailed": "detailed"}[c.clause], tyText(t), crash)
+				if who.tag == "mutable-hash-stale-type" {
+					what = fmt.Sprintf("after step %d (%s) the %s type of the mutable hash is still %s, which does not contain {its entries} = %s %s", k, st.Op,
+						map[string]string{"infer": "inferred", "detailed": "detailed"}[c.clause], tyText(t), lat.ValText(frozen), crash)
+				}
+				tags := []string{who.tag}
+				if containsNaN(types.VerifDecodeValue(frozen)) {
+					tags = []string{"nonfinite-float"}
+				}
+				res.Violate(lib.Violation{Clause: c.clause, What: what, Input: in, Tags: tags})
+				if trace != nil {
+					trace("FAILS: " + what)
+				}
+			}
+		}
+	}
+}
+
+func mutableHistories(r *lib.Rng, nRandom int) []*mHistory {
+	keys := []*lat.VSpec{lat.VS("a"), lat.VS("b"), lat.VS("c"), lat.VS(""), lat.VI(1), lat.VI(2), lat.VF(2.5), lat.VB(true), lat.VU()}
+	vals := []*lat.VSpec{lat.VI(1), lat.VS("x"), lat.VS("y"), lat.VU(), lat.VF(2.5), lat.VA(), lat.VA(lat.VI(1)), lat.VH(lat.VS("a"), lat.VI(1)), lat.VB(false),
+		lat.VT(lat.Int(0, 5)), strsArr("a", "b", "c")}
+	put := func(k, v *lat.VSpec) mStep { return mStep{Op: "put", K: k, V: v} }
+	ask := []mStep{{Op: "ptype"}, {Op: "detailed"}}
+	var out []*mHistory
+	// bounded: put, ask, put (a new key, or the same key with another value), ask — every order of the two questions
+	for i1, k1 := range keys {
+		for _, v1 := range vals[:6] {
+			for i2, k2 := range keys {
+				for _, v2 := range vals[:6] {
+					if (i1+i2)%2 == 1 && i1 != i2 {
+						continue
+					}
+					for _, q := range [][]mStep{{ask[0]}, {ask[1]}, {ask[0], ask[1]}, {ask[1], ask[0]}, {}} {
+						steps := append([]mStep{put(k1, v1)}, q...)
+						steps = append(steps, put(k2, v2), ask[0], ask[1])
+						out = append(out, &mHistory{Kind: "mutable-hash", Steps: steps})
+					}
+				}
+			}
+		}
+	}
+	for i := 0; i < nRandom; i++ {
+		n := 2 + r.Intn(7)
+		var steps []mStep
+		for j := 0; j < n; j++ {
+			if j == 0 || r.Chance(1, 2) {
+				steps = append(steps, put(keys[r.Intn(len(keys))], vals[r.Intn(len(vals))]))
+			} else {
+				steps = append(steps, ask[r.Intn(2)])
+			}
+		}
+		out = append(out, &mHistory{Kind: "mutable-hash", Steps: steps})
+	}
+	return out
+}
+
+func replayMutable(in interface{}, res *lib.Result) {
+	var h mHistory
+	remarshal(in, &h)
+	runMutable(&h, res, func(line string) { fmt.Println(line) })
 }
